@@ -148,22 +148,32 @@ func run(ci any, r *mon.Rec) {
 	// yield hook
 	var ymu sync.Mutex
 	yrng := rand.New(rand.NewSource(c.Seed ^ 0x79))
-	if c.Yield {
-		f := func(name string) {
+	// the hook always records when the accept loop is about to track a connection ("accept.tracked" is reached exactly by
+	// the connections the server starts serving); it delays only when c.Yield is set
+	var trackedStamps []int64
+	f := func(name string) {
+		if name == "accept.tracked" {
+			st := sc.clk.Tick()
 			ymu.Lock()
-			d := yrng.Intn(5)
+			trackedStamps = append(trackedStamps, st)
 			ymu.Unlock()
-			switch {
-			case d == 0:
-				time.Sleep(time.Duration(100+50*len(name)) * time.Microsecond)
-			case d < 3:
-				time.Sleep(20 * time.Microsecond)
-			}
 		}
-		server.VerifYield.Store(&f)
+		if !c.Yield {
+			return
+		}
+		ymu.Lock()
+		d := yrng.Intn(5)
+		ymu.Unlock()
+		switch {
+		case d == 0:
+			time.Sleep(time.Duration(100+50*len(name)) * time.Microsecond)
+		case d < 3:
+			time.Sleep(20 * time.Microsecond)
+		}
+	}
+	server.VerifYield.Store(&f)
+	if c.Yield {
 		sc.l.ConnYield = f
-	} else {
-		server.VerifYield.Store(nil)
 	}
 	defer server.VerifYield.Store(nil)
 
@@ -419,14 +429,41 @@ func run(ci any, r *mon.Rec) {
 		if sc.rejected[rc.RemoteAddr().String()] {
 			continue
 		}
-		// a connection the listener handed out after the serve context was cancelled is dropped by the stopping server
-		// (closed, never served): it must not leak, but it is not an "accepted connection" in the sense of the callbacks
-		if cancelStamp > 0 && rc.AcceptSeq.Load() > cancelStamp {
+		// "accepted" = the server went on to serve it: an accept.tracked stamp lies between this connection's Accept and
+		// the next Accept. A connection handed out by the listener while the serve context ends is closed by the stopping
+		// server without being served: it must not leak, but it gets no callbacks.
+		ta := rc.AcceptSeq.Load()
+		next := int64(1) << 62
+		for _, o := range sc.l.Conns {
+			if oa := o.AcceptSeq.Load(); oa > ta && oa < next {
+				next = oa
+			}
+		}
+		isTracked := false
+		ymu.Lock()
+		for _, st := range trackedStamps {
+			if st > ta && st < next {
+				isTracked = true
+			}
+		}
+		ymu.Unlock()
+		if !isTracked {
 			lateConns = append(lateConns, rc)
 			continue
 		}
 		accepted[rc.RemoteAddr().String()] = rc
 	}
+	// a connection the accept callback approved must be served (and later get its close callback)
+	sc.mu.Lock()
+	for _, e := range sc.accepts {
+		if e.rejected {
+			continue
+		}
+		if _, ok := accepted[e.remote]; !ok {
+			r.Violate(c, "approved-connection-dropped", mon.Attrs{"terminal": c.Terminal}, fmt.Sprintf("%s: OnAcceptConnFunc returned nil for %s but the server dropped the connection without serving it (no close callback will follow)", ctxs, e.remote))
+		}
+	}
+	sc.mu.Unlock()
 	deadline := time.Now().Add(3 * time.Second)
 	for time.Now().Before(deadline) {
 		tr, cn := s.VerifConnAccounting()
